@@ -1207,3 +1207,145 @@ def wrapper_passthrough_ps(report, rid, db, S=None):
             else:
                 bad(why)
     report.floor('cipher wrapper I/O methods', n, 3)
+
+
+# -- what a new connection must start from ------------------------------------
+def fresh_connection_state(report, R, db, S, M, want):
+    """Every returning path of Connection._connect has, by the time it
+    returns, stored the per-connection state named in `want`:
+      'framing' -- options.compression_enabled = False (and a threshold that
+                   means "none"): a connection always starts unframed, however
+                   the previous one ended;
+      'queue'   -- the outgoing queue is a new, empty, unbounded deque: a
+                   packet left over from the previous connection must not be
+                   the first thing the new server sees.
+    (Both are also reset when the owner reconnects from a handler without
+    calling disconnect() first, which the library allows.)"""
+    from .pathsum import struct, show
+    cn = M.conn_method('_connect')
+    me = ('sym', cn.params[0])
+    opts = ('attr', me, 'options')
+    paths = [p for p in S.run(cn) if p.returns]
+    if not paths:
+        raise AnalysisError('_connect: no returning path', cn.node,
+                            rel(cn.path))
+    prob = {}
+    for p in paths:
+        st = p.flat(('store',))
+        if 'framing' in want:
+            en = [e for e in st if struct(e.base) == opts
+                  and e.attr == 'compression_enabled']
+            if not en or en[-1].value != ('const', False):
+                prob['connect:framing-carried-over'] = (
+                    'a new connection can start with compression_enabled %s: '
+                    'if the previous connection negotiated compression and '
+                    'the owner reconnects without disconnect() (from an '
+                    'exception handler, say), handshake and login go out '
+                    'with a data-length prefix nobody asked for' % (
+                        'left as the last connection set it' if not en
+                        else 'set to %s' % show(en[-1].value)))
+        if 'queue' in want:
+            qs = [e for e in st if struct(e.base) == me and
+                  e.attr == '_outgoing_packet_queue']
+            ok = bool(qs)
+            if ok:
+                v = qs[-1].value
+                ok = v[0] == 'call' and v[1] in (
+                    ('ext', 'collections.deque'),) and not v[2] and not v[3]
+            if not ok:
+                prob['connect:queue-carried-over'] = (
+                    'a new connection does not start from an empty outgoing '
+                    'queue (%s): a packet that was still queued when the '
+                    'previous connection died is the first frame the new '
+                    'server receives, ahead of the handshake' % (
+                        'the queue is not re-created' if not qs
+                        else 'it is set to %s' % show(qs[-1].value)))
+    for key, msg in sorted(prob.items()):
+        report.violation(R, key, cn.path, cn.node, cn.qualname, msg)
+    if not prob:
+        report.ok(R, '_connect resets %s on all %d returning paths' % (
+            ' and '.join(sorted(want)), len(paths)))
+
+
+def context_imposed(report, R, db, S, M):
+    """Whatever a packet carried before, Connection.write_packet gives it the
+    context of *this* connection before it is queued or written, on every
+    path: the wire form of a packet follows the protocol of the connection it
+    is sent on."""
+    from .pathsum import struct, show
+    wp = M.conn_method('write_packet')
+    me, pk = ('sym', wp.params[0]), ('sym', wp.params[1])
+    ctx = ('attr', me, 'context')
+    inner = M.conn_method('_write_packet')
+    n = 0
+    for p in S.run(wp):
+        evs = p.flat(('call', 'store'))
+        uses = [e for e in evs if e.kind == 'call' and (
+            e.calls(inner) or e.method() in ('append', 'appendleft'))
+            and any(struct(a) == pk for a in e.args)]
+        if not uses:
+            continue
+        n += 1
+        before = evs[:evs.index(uses[0])]
+        sets = [e for e in before if e.kind == 'store'
+                and struct(e.base) == pk and e.attr == 'context']
+        if not sets or struct(sets[-1].value) != ctx:
+            report.violation(
+                R, 'write:context-not-imposed', wp.path, uses[0].node,
+                wp.qualname, 'a packet can be queued or written without '
+                'having been given this connection\'s context [%s]: one that '
+                'already carries another connection\'s context is encoded '
+                'with that connection\'s protocol version' % p.cond_text())
+            return
+    if not n:
+        raise AnalysisError('write_packet: no path queues or writes the '
+                            'packet', wp.node, rel(wp.path))
+    report.ok(R, 'write_packet sets packet.context = self.context before '
+              'queueing or writing, on all %d paths' % n)
+
+
+def forced_write_is_synchronous(report, R, db, S, M):
+    """write_packet(packet, force=True) has put the packet on the wire when it
+    returns: every returning path taken under `force` calls _write_packet
+    (with the write lock held) and none queues the packet instead.  The login
+    reaction relies on it: the encryption response must leave in the clear
+    before the cipher is installed."""
+    from .pathsum import struct
+    wp = M.conn_method('write_packet')
+    inner = M.conn_method('_write_packet')
+    me, pk = ('sym', wp.params[0]), ('sym', wp.params[1])
+    if 'force' not in wp.params:
+        raise AnalysisError('write_packet lost its force parameter', wp.node,
+                            rel(wp.path))
+    n = 0
+    paths = S.run(wp, args={'force': ('const', True)})
+    for p in paths:
+        if not p.returns:
+            continue
+        n += 1
+        evs = p.flat(('call',))
+        wr = [e for e in evs if e.calls(inner)
+              and any(struct(a) == pk for a in e.args)]
+        q = [e for e in evs if e.method() in ('append', 'appendleft',
+                                              'insert', 'extend')
+             and any(struct(a) == pk for a in e.args)]
+        if not wr or q:
+            report.violation(
+                R, 'forced-write:deferred', wp.path,
+                (q[0] if q else wp).node if q else wp.node, wp.qualname,
+                'write_packet(force=True) can return with the packet only '
+                'queued [%s]: what the caller does next (the login reaction '
+                'installs the cipher) then happens before the packet is on '
+                'the wire' % p.cond_text())
+            return
+        if not all(any(struct(h) == ('attr', me, M.lock_attr)
+                       for h in e.held) for e in wr):
+            report.violation(R, 'forced-write:unlocked', wp.path,
+                             wr[0].node, wp.qualname, 'the forced write is '
+                             'not made under the write lock')
+            return
+    if not n:
+        raise AnalysisError('write_packet(force=True): no returning path',
+                            wp.node, rel(wp.path))
+    report.ok(R, 'write_packet(force=True): the packet has been written, '
+              'under the lock, on all %d returning paths' % n)
